@@ -338,7 +338,19 @@ def m_sym_big_rate(doc, rng, extra):
     return "migration:symmetric_total_rate"
 
 
-OPERATORS = [m_near_sizes, m_pulse_multi_source, m_sym_big_rate, m_overlap_migration, m_overlap_migration, m_set_leaf, m_set_leaf, m_delete, m_unknown_field, m_rename_field, m_time_field, m_time_field, m_rate,
+def m_empty_list(doc, rng, extra):
+    """a list-valued field emptied (epochs: [], demes: [], sources: [], ...)"""
+    cands = [p for p in paths(doc) if p and isinstance(get(doc, p), list) and isinstance(parent(doc, p)[0], dict)]
+    if not cands:
+        return None
+    pr = [p for p in cands if p[-1] in ("epochs", "demes", "sources", "ancestors", "proportions")]
+    p = rng.choice(pr if pr and rng.random() < 0.7 else cands)
+    par, k = parent(doc, p)
+    par[k] = []
+    return "empty_list:" + field_of(p)
+
+
+OPERATORS = [m_empty_list, m_near_sizes, m_pulse_multi_source, m_sym_big_rate, m_overlap_migration, m_overlap_migration, m_set_leaf, m_set_leaf, m_delete, m_unknown_field, m_rename_field, m_time_field, m_time_field, m_rate,
              m_proportions, m_size, m_size_function, m_names, m_defaults, m_defaults, m_header, m_migration_shape]
 
 
